@@ -58,17 +58,22 @@ def observe(cid, cls, obj, loci, n, small, P=2):
         c["gtflat"] = bool(gok)
     else:
         c["gt"] = [[-1] * L] * (P + 1); c["gtf"] = [[-1] * L] * (P + 1); c["gtflat"] = False
-    # requested dtypes are honoured
-    dt_ok = True
-    for meth, dt in (("acount", "int32"), ("afreq", "float32"), ("maf", "float32"), ("gtcount", "int16"),
-                     ("gtfreq", "float32"), ("apoly", "int8"), ("tacount", "int16"), ("tafreq", "float32")):
+    # requested dtypes are honoured, and the VALUES delivered in a requested dtype are those of the default call (flags as
+    # bool / int8 / uint8 / int64, counts in dtypes wide enough for them, frequencies in float32 up to float32 rounding)
+    dt_ok = True; dtv_ok = True
+    for meth, dt in (("acount", "int32"), ("acount", "int64"), ("afreq", "float32"), ("maf", "float32"), ("gtcount", "int16"), ("gtcount", "int64"),
+                     ("gtfreq", "float32"), ("apoly", "int8"), ("apoly", "bool"), ("apoly", "uint8"), ("apoly", "int64"),
+                     ("afixed", "bool"), ("afixed", "int8"), ("afixed", "uint8"), ("tacount", "int16"), ("tafreq", "float32")):
         try:
-            res = getattr(obj, meth)(dtype=dt)
-            if np.asarray(res).dtype != np.dtype(dt):
+            res = np.asarray(getattr(obj, meth)(dtype=dt))
+            ref = np.asarray(getattr(obj, meth)())
+            if res.dtype != np.dtype(dt):
                 dt_ok = False
+            if res.shape != ref.shape or not np.allclose(res.astype(float), ref.astype(float), rtol=1e-6, atol=1e-6):
+                dtv_ok = False
         except Exception:
             dt_ok = False
-    c["dtypeok"] = dt_ok
+    c["dtypeok"] = dt_ok and dtv_ok
     if small:
         if cls.startswith("phased"):
             dos = np.asarray(obj.mat).astype(int).sum(0)
@@ -210,7 +215,10 @@ def run(ctx):
             ug = DenseGenotypeMatrix(dosem.astype("int8"), ploidy=P)
             objs = [("phased", pg), ("unphased", ug), ("genotyped", DenseUnphasedGenotyping().genotype(pg)),
                     ("phased", _copy.deepcopy(pg)), ("unphased", _copy.deepcopy(ug)), ("phased", _copy.copy(pg)),
-                    ("unphased", _copy.copy(ug)), ("unphased", ug.deepcopy()), ("phased", pg.deepcopy())]
+                    ("unphased", _copy.copy(ug)), ("unphased", ug.deepcopy()), ("phased", pg.deepcopy()),
+                    # objects derived by the copying selections keep the ploidy (and everything else) of their source
+                    ("unphased", ug.select_taxa(np.arange(n))), ("phased", pg.select_taxa(np.arange(n))),
+                    ("unphased", ug.select_vrnt(np.arange(L))), ("unphased", ug.select(np.arange(n), axis=0))]
         except Exception as e:
             ctx.violation("construct:exception", "ploidy %d: %s: %s" % (P, type(e).__name__, e), {"n": n, "ploidy": P})
             continue
@@ -221,7 +229,8 @@ def run(ctx):
             cid += 1
             try:
                 c = observe(cid, cls, obj, comp, n, small, P)
-                c["copy"] = ["", "", "", ":deepcopy", ":deepcopy", ":copy", ":copy", ":deepcopy", ":deepcopy"][k]
+                c["copy"] = ["", "", "", ":deepcopy", ":deepcopy", ":copy", ":copy", ":deepcopy", ":deepcopy", ":select_taxa", ":select_taxa",
+                             ":select_vrnt", ":select"][k]
                 allc.append(c)
             except Exception as e:
                 ctx.violation("%s:exception" % cls, "ploidy %d: %s: %s" % (P, type(e).__name__, e), {"n": n, "ploidy": P})
@@ -246,7 +255,7 @@ def run(ctx):
                           "TLC verdict %s (ploidy=%d, n=%d, %d loci%s)" % (v, c["ploidy"], c["n"], len(c.get("loci", c.get("dose"))), ", statistics queried, then taxa removed/appended in place" if c.get("edited") else ""),
                           {k: (c[k][:12] if isinstance(c[k], list) else c[k]) for k in c})
         if not c["dtypeok"]:
-            ctx.violation("%s:requested-dtype" % site[c["cls"]], "a requested output dtype was not honoured", {"n": c["n"]})
+            ctx.violation("%s:requested-dtype" % site[c["cls"]], "a requested output dtype was not honoured, or the values delivered in it differ from those of the default call", {"n": c["n"]})
     s = allc[-1]
     ctx.sample({k: s[k] for k in ("cls", "n", "ploidy", "loci", "dose", "acount", "af", "poly", "fixed", "maf", "meh", "gt") if k in s})
     ctx.sample({"verdict": verd[s["id"]]})
